@@ -180,4 +180,9 @@ theorem edgeworthOne_fix (sizes : List Nat) (tr : Trust) (w : W) (h : EdgeOK siz
   · rw [e]; exact hpos _ (fun p hp' => mem_pairsLex.mp (by simpa using hp')) hp
   · rw [e]; exact hneg _ (fun p hp' => mem_pairsLex_rev hp') hp
 
+theorem jn_lt {N j : Nat} (pos : Bool) (h : j + 1 < N) : jn N pos j < N := by
+  unfold jn; split <;> omega
+theorem jc_lt {N j : Nat} (pos : Bool) (h : j + 1 < N) : jc N pos j < N := by
+  unfold jc; split <;> omega
+
 end Tfl.Lat
